@@ -200,6 +200,15 @@ def _worker_body(args, out, t0):
         from . import env
 
         env.bootstrap()
+        if shard % 3 == 2:
+            # one shard in three runs with the library's loggers at DEBUG (records discarded): an application that
+            # switches debug logging on must get the same numbers
+            import logging
+
+            lg = logging.getLogger("beyond")
+            lg.setLevel(logging.DEBUG)
+            if not lg.handlers:
+                lg.addHandler(logging.NullHandler())
         mod = importlib.import_module(f"vf.props.{prop.lower()}")
         facet = {f.name: f for f in mod.FACETS}[facet_name]
         if facet.setup:
